@@ -26,7 +26,8 @@ impl Iterator for PyRange {
             return None;
         }
         let out = self.cur;
-        self.cur += self.step;
+        // `cur + step` can leave i64 after the last element; park the cursor on `end` (exhausted).
+        self.cur = self.cur.checked_add(self.step).unwrap_or(self.end);
         Some(out)
     }
 }
